@@ -38,6 +38,14 @@ def c14(ck, tier, seed):
     ck.sample_from(files)
     results = vlib.validate("TraceManager", files, ["C14"])
     ck.add_validation(results, driver_cmd=cmds)
+    # dynamic terminal manager (MTBDD): the terminal capacity is the binding limit (TraceMV)
+    od = os.path.join(ck.outdir, "mtoom")
+    res = vlib.run_driver(binary, "mtoom", {"seed": seed + 9, "tier": tier}, od, timeout=600)
+    mfiles = ck.add_driver(res)
+    ck.add_validation(vlib.validate("TraceMV", mfiles, ["C14"]), driver_cmd=[" ".join(map(str, res["cmd"]))])
+    ck.cov["rule"] += ("; MTBDD<I64> with terminal capacities 4..12: operations needing new terminals fail with the out-of-memory "
+                       "error, every handle keeps graph and values, after dropping the ballast and ONE collection (exact for inner "
+                       "nodes and terminals) the retry succeeds")
     import checks
     checks.store_mc(ck, tier)
     ck.assumptions += ["index backend only (capacity is exact there)", "reordering / add_vars under memory pressure abort the "
